@@ -308,6 +308,13 @@ class ContractMixin:
             ty = args[0].obj if isinstance(args[0], Callable_) else args[0]
             nm = z3.simplify(args[1].t).as_string()
             return Val(ty, [z3.Const("ghost!%s!%d" % (nm, i), srt) for i, srt in enumerate(ty.comps())])
+        if name == "raised":
+            # a field (keyword argument) of the exception object that is leaving the function (only inside an "onraise:" clause)
+            exc = getattr(self, "cur_exc", None)
+            f = z3.simplify(args[0].t).as_string()
+            if exc is None or f not in (exc.fields or {}):
+                raise Unsupported("raised(%r): the exception carries no such field here" % f, node)
+            return exc.fields[f]
         if name == "result":
             raise Unsupported("result is a name, not a function", node)
         raise Unsupported("contract function %s" % name, node)
@@ -434,8 +441,8 @@ class ContractMixin:
             st.fresh_refs.append(result)
         feasible_before = None
         for lab, enode in ci.ensures:
-            if _mentions_log(enode):
-                continue        # a clause over the callee's own ghost call history says nothing a caller can use
+            if _mentions_log(enode) or lab.startswith("onraise:"):
+                continue        # a clause over the callee's own ghost call history (or over its failure) says nothing a caller can use here
             if feasible_before is None:
                 feasible_before = feasible(st.pc, z3.BoolVal(True))
             st.assume(self.eval_in_contract(ci, enode, st, {"result": result}))
